@@ -94,6 +94,9 @@ def tmpdir():
         base = "/dev/shm" if os.path.isdir("/dev/shm") else \
             os.path.join(VERIF_ROOT, "scratch")
         _TMP = tempfile.mkdtemp(prefix="verif_c16_", dir=base)
+        # library code under test also creates temporary directories
+        # (load_hdf5); keep them inside the per-run scratch directory
+        tempfile.tempdir = _TMP
         atexit.register(shutil.rmtree, _TMP, True)
     return _TMP
 
